@@ -500,7 +500,7 @@ pub fn gen_scenario(t: &mut Tape, p: &Profile) -> Scenario {
             None
         },
         tcp_open: !t.chance(400),
-        tcp_reject_code: if p.target_kinds && t.chance(80) { Some([13u8, 10, 9, 1, 3][t.pick(5)]) } else { None },
+        tcp_reject_code: if p.target_kinds && t.chance(80) { Some([13u8, 10, 9, 1, 3, 4, 3, 4][t.pick(8)]) } else { None },
         quote: gen_quote(t, p),
         layout: gen_layout(t, p),
     };
@@ -516,6 +516,8 @@ pub fn gen_scenario(t: &mut Tape, p: &Profile) -> Scenario {
         hop_delay_ns,
         jitter_ns,
         ecmp_salt: t.draw(1_000_000),
+        // one run in twenty-five has a device that inserts IP options (IPv4 only)
+        ip_options: if !v6 && t.chance(40) { Some((1 + t.draw(6), 1 + t.draw(10) as u8)) } else { None },
     };
     if p.delivery_faults && t.chance(750) {
         // per-run rates, mean well below 15 %
@@ -566,7 +568,7 @@ pub fn gen_scenario(t: &mut Tape, p: &Profile) -> Scenario {
         scripted: Vec::new(),
         stall_pm: 0,
         stall_max_ns: 0,
-        addr_in_use_pm: 0, addr_in_use_from_round: 0, addr_in_use_udp: false,
+        addr_in_use_pm: 0, addr_in_use_from_round: 0, addr_in_use_udp: false, addr_in_use_burst: None,
         tick_base_ns: tick_base,
         tick_jitter_ns: tick_jitter,
     };
